@@ -1,10 +1,15 @@
 ------------------------- MODULE MC_HeaderAccess -------------------------
 (* Bounded instances of HeaderAccess.
-     G  (MC_HeaderAccessG*.cfg)  grammar exploration: one header value grows token by token; every
-                                 reachable value is a state, the *WellFormed invariants are checked on
-                                 each and (E configs) the decision table is exported as JSON.
-     M  (MC_HeaderAccessM*.cfg)  memoisation: all read histories over a set of requests.
-     S  (MC_HeaderAccessS.cfg)   read histories with a history variable, for -simulate export. *)
+     G  grammar exploration: one header value grows token by token (named action per grammar); every
+        reachable value is a state, the *WellFormed invariants are checked on each, and EmitG exports
+        the decision table (header value -> specified outcome of every accessor it feeds) as JSON.
+          MC_HeaderAccessGQ.cfg  quick: invariants + export at BoundsQ
+          MC_HeaderAccessG.cfg   thorough: invariants at BoundsT;  MC_HeaderAccessGE.cfg: export at BoundsET
+          MC_HeaderAccessGC.cfg  one-worker guard run: firing counters + vocabulary export
+     M  memoisation: all read histories over a set of requests (MemoSound, CacheSound, LookupSound).
+          MC_HeaderAccessMQ.cfg / M.cfg  quick / thorough;  MC_HeaderAccessMC.cfg  one-worker guard run
+          MC_HeaderAccessBad.cfg         wrong-design switch SharedUriSlot = TRUE: MemoSound must fail
+     S  MC_HeaderAccessS.cfg: read histories with a history variable, for -simulate export (leg A2). *)
 EXTENDS HeaderAccess, Json
 
 CONSTANTS Bounds,        \* grammar -> maximum number of tokens
